@@ -10,7 +10,11 @@ use crate::rng::Rng;
 use log::{Level, LevelFilter, Log, Record};
 use log4rs::append::console::{ConsoleAppender, Target};
 use log4rs::append::file::FileAppender;
-use log4rs::append::rolling_file::policy::compound::{roll::delete::DeleteRoller, trigger::size::SizeTrigger, CompoundPolicy};
+use log4rs::append::rolling_file::policy::compound::{
+    roll::{delete::DeleteRoller, fixed_window::FixedWindowRoller},
+    trigger::{onstartup::OnStartUpTrigger, size::SizeTrigger, time::{TimeTrigger, TimeTriggerInterval}},
+    CompoundPolicy,
+};
 use log4rs::append::rolling_file::RollingFileAppender;
 use log4rs::append::Append;
 use log4rs::config::{Appender, Config, Deserializers, Logger as LoggerCfg, RawConfig, Root};
@@ -1075,7 +1079,31 @@ fn programmatic(cfg: &Cfg, probes: &[(String, usize)], dir: &str) -> String {
                 if let Some(e) = enc {
                     b = b.encoder(e);
                 }
-                let policy = CompoundPolicy::new(Box::new(SizeTrigger::new(1 << 40)), Box::new(DeleteRoller::new()));
+                // integer-form numbers go into the programmatic components as they are; string
+                // forms (all far above any record size) are represented by a large limit
+                let trigger: Box<dyn log4rs::append::rolling_file::policy::compound::trigger::Trigger> = match &a.trig {
+                    Trig::Size(Sc::Int(n)) => Box::new(SizeTrigger::new(*n as u64)),
+                    Trig::Size(Sc::Str(_)) => Box::new(SizeTrigger::new(1 << 40)),
+                    Trig::OnStartUp(m) => Box::new(OnStartUpTrigger::new(m.unwrap_or(1))),
+                    Trig::Time(i, m, d) => {
+                        let interval = match i {
+                            Sc::Int(n) => TimeTriggerInterval::Second(*n as i64),
+                            Sc::Str(_) => TimeTriggerInterval::Day(1),
+                        };
+                        Box::new(TimeTrigger::new(TimeTrigger::verif_config(interval, m.unwrap_or(false), d.unwrap_or(0))))
+                    }
+                };
+                let roller: Box<dyn log4rs::append::rolling_file::policy::compound::roll::Roll> = match &a.roll {
+                    Roll::Delete => Box::new(DeleteRoller::new()),
+                    Roll::Window(b, n) => {
+                        let mut rb = FixedWindowRoller::builder();
+                        if let Some(b) = b {
+                            rb = rb.base(*b as u32);
+                        }
+                        Box::new(rb.build(&format!("{}.{{}}", path), *n as u32).unwrap())
+                    }
+                };
+                let policy = CompoundPolicy::new(trigger, roller);
                 Box::new(b.build(&path, Box::new(policy)).unwrap())
             }
         };
@@ -1198,27 +1226,71 @@ fn gen_enc(rng: &mut Rng) -> Enc {
     }
 }
 
+/// integer-form boundary values: 0, 1 and one large value (TOML hands every integer to the visitor
+/// as i64, YAML / JSON hand the non-negative ones as u64 — the visitors must agree on them)
+fn boundary(rng: &mut Rng, large: u64) -> u64 {
+    match rng.below(3) {
+        0 => 0,
+        1 => 1,
+        _ => large,
+    }
+}
+
 fn gen_trig(rng: &mut Rng, which: u64) -> Trig {
     match which {
-        0 => Trig::Size(if rng.chance(1, 3) { Sc::Int(rng.range(100_000, 1 << 40) as i128) } else { Sc::Str((*rng.pick(SIZES)).to_owned()) }),
+        0 => Trig::Size(match rng.below(6) {
+            0 | 1 => Sc::Int(boundary(rng, i64::MAX as u64) as i128),
+            2 => Sc::Int(rng.range(100_000, 1 << 40) as i128),
+            _ => Sc::Str((*rng.pick(SIZES)).to_owned()),
+        }),
         1 => Trig::Time(
-            if rng.chance(1, 4) { Sc::Int(rng.range(1, 100_000) as i128) } else { Sc::Str((*rng.pick(INTERVALS)).to_owned()) },
+            match rng.below(6) {
+                0 | 1 => Sc::Int(boundary(rng, i64::MAX as u64) as i128),
+                2 => Sc::Int(rng.range(1, 100_000) as i128),
+                _ => Sc::Str((*rng.pick(INTERVALS)).to_owned()),
+            },
             opt(rng, |r| r.chance(1, 2)),
-            opt(rng, |r| r.range(0, 100)),
+            opt(rng, |r| if r.chance(1, 2) { boundary(r, i64::MAX as u64) } else { r.range(0, 100) }),
         ),
-        _ => Trig::OnStartUp(opt(rng, |r| r.range(1, 1000))),
+        _ => Trig::OnStartUp(opt(rng, |r| if r.chance(1, 2) { boundary(r, i64::MAX as u64) } else { r.range(1, 1000) })),
     }
 }
 
 fn gen_roll(rng: &mut Rng, window: bool) -> Roll {
     if window {
-        Roll::Window(opt(rng, |r| r.range(0, 3)), rng.range(0, 5))
+        let base = opt(rng, |r| if r.chance(1, 2) { boundary(r, u32::MAX as u64) } else { r.range(0, 3) });
+        let mut count = if rng.chance(1, 2) { boundary(rng, u32::MAX as u64) } else { rng.range(0, 5) };
+        // valid configurations keep the window representable (base + count - 1 <= u32::MAX); the
+        // unrepresentable one is an injection (class ctor)
+        if count > 0 && base.unwrap_or(0) + (count - 1) > u32::MAX as u64 {
+            count = u32::MAX as u64 - base.unwrap_or(0) + 1;
+        }
+        Roll::Window(base, count)
     } else {
         Roll::Delete
     }
 }
 
 fn gen_app(rng: &mut Rng, name: &str, idx: usize, kind: u8) -> App {
+    let mut a = gen_app_raw(rng, name, idx, kind);
+    // a trigger that really fires during the probes must not meet a window of billions of
+    // archives (one rotation visits every index; that is C07's subject, not a config question)
+    let may_roll = match &a.trig {
+        Trig::Size(Sc::Int(n)) => *n < 100_000,
+        Trig::OnStartUp(Some(0)) => true,
+        _ => false,
+    };
+    if may_roll {
+        if let Roll::Window(_, n) = &mut a.roll {
+            if *n > 1000 {
+                *n = 1;
+            }
+        }
+    }
+    a
+}
+
+fn gen_app_raw(rng: &mut Rng, name: &str, idx: usize, kind: u8) -> App {
     App {
         name: name.to_owned(),
         kind,
@@ -1435,6 +1507,12 @@ fn injections(cfg: &Cfg) -> Vec<(&'static str, Vec<Step>, String)> {
                 v.push(("typ", app_path(a, &["policy", "roller", "count"]), st("3")));
                 v.push(("miss", app_path(a, &["policy", "roller", "count"]), "X".into()));
                 v.push(("ctor", app_path(a, &["policy", "roller", "pattern"]), st("nobraces.log")));
+                if let Roll::Window(_, n) = &a.roll {
+                    if *n >= 2 {
+                        // last index of the window above u32::MAX: the builder refuses it
+                        v.push(("ctor", app_path(a, &["policy", "roller", "base"]), "I4294967295".into()));
+                    }
+                }
                 if b.is_none() {
                     v.push(("null", app_path(a, &["policy", "roller", "base"]), "N".into()));
                 }
@@ -1505,6 +1583,48 @@ pub fn gen(rng: &mut Rng, n: usize, thorough: bool, emit: &mut dyn FnMut(String)
     let all = injections(&full);
     for (i, inj) in all.iter().enumerate() {
         emit_case(emit, &full, &full_probes, (i as u64) * 7919 + 3, Some(inj));
+    }
+    // integer-form boundary values of every numeric leaf, one rolling appender each, attached to
+    // the root and probed
+    {
+        let large = i64::MAX as u64;
+        let mut variants: Vec<(Trig, Roll)> = vec![];
+        for v in [0u64, 1, large] {
+            variants.push((Trig::Size(Sc::Int(v as i128)), Roll::Delete));
+            variants.push((Trig::Size(Sc::Int(v as i128)), Roll::Window(None, 2)));
+            variants.push((Trig::OnStartUp(Some(v)), Roll::Window(Some(1), 1)));
+            variants.push((Trig::OnStartUp(Some(v)), Roll::Delete));
+            variants.push((Trig::Time(Sc::Int(v as i128), Some(false), Some(v)), Roll::Delete));
+            variants.push((Trig::Time(Sc::Int(v as i128), Some(true), None), Roll::Delete));
+        }
+        for b in [0u64, 1, u32::MAX as u64] {
+            for n in [0u64, 1, u32::MAX as u64] {
+                if n > 0 && b + (n - 1) > u32::MAX as u64 {
+                    continue;
+                }
+                variants.push((Trig::Size(Sc::Str("10 mb".into())), Roll::Window(Some(b), n)));
+            }
+        }
+        for (i, (trig, roll)) in variants.into_iter().enumerate() {
+            let cfg = Cfg {
+                refresh: None,
+                root: Some((Some("info".into()), Some(vec!["r".into()]))),
+                loggers: vec![],
+                appenders: vec![App {
+                    name: "r".into(),
+                    kind: 2,
+                    filters: None,
+                    path: "r.log".into(),
+                    flag: None,
+                    enc: Some(Enc { kind_explicit: false, json: false, pattern: true }),
+                    target: None,
+                    policy_kind: i % 2 == 0,
+                    trig,
+                    roll,
+                }],
+            };
+            emit_case(emit, &cfg, &[("x".into(), 3), ("y".into(), 2), ("z".into(), 5)], i as u64, None);
+        }
     }
     // the empty document
     emit_case(emit, &Cfg { refresh: None, root: None, loggers: vec![], appenders: vec![] }, &[], 0, None);
